@@ -63,8 +63,10 @@ Definition set_meta (m : meta) (p : prop) : prop :=
   match p with Var _ _ _ => p | Node _ i g lo hi s v ch => Node m i g lo hi s v ch end.
 Definition with_default (c : cls) (d : dflt_t) : meta := mkMeta c None d 0.
 
-(* len(set(propositions)) of All.__init__ — see DESIGN 3.3 for the hash/eq model *)
-Definition set_len (args : list prop) : Z := Z.of_nat (List.length (py_set args)).
+(* the threshold of All.__init__: len(propositions) — every operand counts, repeated ones too (since fix D16; before
+   it was len(set(propositions)) under the hash/eq model of DESIGN 3.3, which a repeated operand lowered).  The name is
+   kept from that time. *)
+Definition set_len (args : list prop) : Z := Z.of_nat (List.length args).
 
 Definition c_atleast (o : oid_t) (v : Z) (s : option Z) (args : list prop) := mk_node genid (mk KAtLeast) v args o s.
 Definition c_atmost (o : oid_t) (v : Z) (args : list prop) := mk_node genid (mk KAtMost) (- v) args o (Some (-1)).
